@@ -125,8 +125,8 @@ prop("C15",
 prop("C05",
      ["C05_guard_ops_refine_map", "C05_guard_ops_enabled", "C05_lock_free_key", "C05_variants_interchangeable", "C05_try_fails_when_locked", "C05_drop_sole_guard", "C05_lock_drop_absent_restores", "C05_call_refines", "C05_history_refines", "C05_history_deterministic", "C05_witness", "C05_history_witness", "C05_call_refines_inside_callbacks", "C05_limited_call_refines", "C05_callback_failure_refines", "C05_callback_success_refines", "C05_limit_witness", "C05_every_interleaving_refines", "C05_concurrent_histories_linearise", "C05_try_fails_only_if_locked_or_awaited", "C05_try_succeeds_when_free", "C05_linearisation_witness"],
      ["C02.", "C04.", "C12.", "C05."],
-     [fam("seq","H",3000), fam("seq","L",3000), fam("nocancel","H",1500), fam("nocancel","L",1500), fam("scale","L",2,"monitor")],
-     [fam("seq","H",100000), fam("seq","L",100000), fam("nocancel","H",40000), fam("nocancel","L",40000), fam("mix","H",20000)],
+     [fam("seq","H",3000), fam("seq","L",3000), fam("nocancel","H",1500), fam("nocancel","L",1500), fam("scale","L",2,"monitor"), fam("fine-nolimit","H",2500)],
+     [fam("seq","H",100000), fam("seq","L",100000), fam("nocancel","H",40000), fam("nocancel","L",40000), fam("mix","H",20000), fam("fine-nolimit","H",40000), fam("fine-nolimit","L",40000)],
      cosim_obs_is_oracle=True,
      lin="all")
 
